@@ -23,7 +23,7 @@ ASSUMPTIONS = [
     "'discarded' for prune/expand/replace-with-deletion = nodes reachable from the operated root before but not after",
     "attach and replace without deletion do not change the registry",
 ]
-REQUIRED = ["documents_closed_and_reopened", "op:create", "op:copy", "op:from_xml", "op:from_json", "op:attach", "op:replace_delete", "op:replace_keep", "op:prune",
+REQUIRED = ["op:borrow", "documents_closed_and_reopened", "op:create", "op:copy", "op:from_xml", "op:from_json", "op:attach", "op:replace_delete", "op:replace_keep", "op:prune",
             "op:prune_strict", "op:expand", "op:delete", "op:delete_keep_children", "op:forget", "op:replace_rejected", "id_stress_nodes", "ops_discarding", "ops_creating"]
 EXHAUSTIVE = {"quick": False, "thorough": False}
 
@@ -104,13 +104,24 @@ def small_doc(rng):
     return el(0)
 
 
+STYLE = [0]
+
+
 def fresh_json(root):
     """JSON text of the tree with every id replaced by a new one (never reusing an id deliberately)."""
     obj = json.loads(metapype_io.to_json(root))
 
+    style = STYLE[0]
+    STYLE[0] = (style + 1) % 4
+
+    def new_id():
+        # ids as other tools write them: lower case, UPPER CASE, in braces, as a URN
+        u = str(uuid.uuid4())
+        return u if style == 0 else u.upper() if style == 1 else "{" + u.upper() + "}" if style == 2 else "urn:uuid:" + u
+
     def walk(o):
         for name, body in o.items():
-            body[0]["id"] = str(uuid.uuid4())
+            body[0]["id"] = new_id()
             for c in body[7]["children"]:
                 walk(c)
 
@@ -153,6 +164,14 @@ def noref_gen():
     return _NOREF
 
 
+def lister_of(n, root):
+    """The node of the tree at `root` that lists n (the harness does not trust parent links: a borrowed node's link is stale)."""
+    for x in snapshot.walk(root):
+        if any(c is n for c in x.children):
+            return x
+    return None
+
+
 def one_history(ctx, gen, hno):
     rng = ctx.rng
     held = []          # roots of fully registered, live trees
@@ -168,7 +187,7 @@ def one_history(ctx, gen, hno):
     for step in range(60):
         before = dict(Node.store)
         ops = ["create", "create", "copy", "from_xml", "from_json", "attach", "replace_delete", "replace_keep", "prune", "prune_strict",
-               "expand", "delete", "delete_keep_children", "forget", "replace_rejected", "close_and_reopen"]
+               "expand", "delete", "delete_keep_children", "forget", "replace_rejected", "close_and_reopen", "borrow"]
         op = rng.choice(ops)
         if live_count() > 200:
             op = "delete"
@@ -198,6 +217,20 @@ def one_history(ctx, gen, hno):
                 t = metapype_io.from_xml(doc)
                 mon.check(op, before, snapshot.walk(t), [], wit)
                 held.append(t)
+            elif op == "borrow" and len(held) >= 2:
+                # a node of one tree is attached to another tree and taken out again (a drag that was undone): it is back where it was,
+                # only its parent link still names the other tree; nothing enters or leaves the registry - now or when an ancestor is
+                # replaced or deleted later
+                a, b = rng.sample(range(len(held)), 2)
+                inner = [n for n in snapshot.walk(held[a])[1:] if n.parent is not None and any(c is n for c in n.parent.children)]
+                if not inner:
+                    continue
+                c = rng.choice(inner)
+                other = rng.choice(snapshot.walk(held[b]))
+                history.append([op, c.name, other.name])
+                other.add_child(c)
+                other.remove_child(c)
+                mon.check(op, before, [], [], wit)
             elif op == "close_and_reopen" and held:
                 # a document is saved, closed (deleted by its root id) and opened again from the saved text: the ids are the same as
                 # before, no two live nodes ever share one; closing it a second time removes every node again
@@ -337,16 +370,18 @@ def one_history(ctx, gen, hno):
                 history.append([op, n.name, len(snapshot.walk(n))])
                 if op == "delete":
                     gone = snapshot.walk(n)
-                    if n.parent is not None and n in n.parent.children:
-                        n.parent.remove_child(n)
+                    lister = lister_of(n, r)
+                    if lister is not None:
+                        lister.remove_child(n)
                     Node.delete_node_instance(n.id) if rng.random() < 0.5 else Node.delete_node_instance(n.id, children=True)
                     mon.check(op, before, [], gone, wit)
                     if n is r:
                         held.pop(i)
                 else:
                     kids = list(n.children)
-                    if n.parent is not None and n in n.parent.children:
-                        n.parent.remove_child(n)
+                    lister = lister_of(n, r)
+                    if lister is not None:
+                        lister.remove_child(n)
                     Node.delete_node_instance(n.id, children=False)
                     mon.check(op, before, [], [n], wit)
                     n.remove_children()
